@@ -102,6 +102,50 @@ def is_near_vertical_fp(xs, ys, i, tol):
     return yb != yb or math.isinf(yb) or 4 * math.ulp(abs(yb)) > tol
 
 
+def is_inclusion_fp(xs, ys, i, q, ulps=64):
+    """The inclusion test of the foot on segment i is decided by ROUNDING for the query q: the exact foot of the
+    perpendicular lies on the segment (parameter 0 <= t <= 1, exact rational arithmetic), yet the foot the code computes in
+    doubles (cartesienne, projection_droite: evaluated here with the code's own operations) fails `proj_segment`'s box test,
+    missing the box by at most `ulps` units in the last place of the coordinate concerned. The general form of D17 (an exactly
+    horizontal segment whose ordinate -c / b does not reproduce is the case t anywhere, miss of one ulp): e.g. a segment
+    horizontal up to 1e-9 and a foot 1e-6 from one of its ends, whose ordinate differs from the end's by less than an ulp.
+    Decidable on the input floats; the code then falls back on the nearer END point."""
+    x1, y1, x2, y2 = float(xs[i]), float(ys[i]), float(xs[i + 1]), float(ys[i + 1])
+    x, y = float(q[0]), float(q[1])
+    if not all(finite(v) for v in (x1, y1, x2, y2, x, y)) or (x1 == x2 and y1 == y2):
+        return False
+    u1 = x2 - x1
+    u2 = y2 - y1
+    b = -u1
+    a = u2
+    c = -(a * x1 + b * y1)
+    if b == 0:
+        return False
+    try:
+        xv = -b
+        yv = a
+        norm = math.sqrt(xv * xv + yv * yv)
+        yb = -c / b
+        BH = ((x - 0) * xv + (y - yb) * yv) / norm
+        xp = 0 + BH * xv / norm
+        yp = yb + BH * yv / norm
+    except (ZeroDivisionError, OverflowError, ValueError):
+        return False
+    if not (finite(xp) and finite(yp)):
+        return False
+    inx = (x1 <= xp <= x2) or (x2 <= xp <= x1)
+    iny = (y1 <= yp <= y2) or (y2 <= yp <= y1)
+    if inx and iny:
+        return False
+    ux, uy = fr(x2) - fr(x1), fr(y2) - fr(y1)
+    t = ((fr(x) - fr(x1)) * ux + (fr(y) - fr(y1)) * uy) / (ux * ux + uy * uy)
+    if not (0 <= t <= 1):
+        return False
+    mx = 0.0 if inx else min(abs(xp - x1), abs(xp - x2))
+    my = 0.0 if iny else min(abs(yp - y1), abs(yp - y2))
+    return mx <= ulps * math.ulp(max(abs(x1), abs(x2), abs(xp))) and my <= ulps * math.ulp(max(abs(y1), abs(y2), abs(yp)))
+
+
 def line_d2(px, py, x1, y1, x2, y2):
     """exact squared distance from (px,py) to the LINE through (x1,y1), (x2,y2)"""
     ux, uy = x2 - x1, y2 - y1
@@ -295,7 +339,8 @@ class P(Prop):
             "UnboundLocalError). Sentinel stream (1 case in 41, appended): proj_polyligne / its two-sequence forms with a query coordinate inf / -inf / "
             "nan / +-1e200 / +-1e308 / +-max double, or vertices at +-1e308, kept only when out of range in that exact sense; checked against the "
             "sentinel-faithful model bit for bit, not constrained by the oracle. Failing answers are excused only inside the listed classes: vertical-segment (D16) and horizontal-segment-fp (D17, also segments "
-            "horizontal up to 64 ulps). The class vertical-segment is recognised from the CASE, not from one failure pattern: the query is projected on a "
+            "horizontal up to 64 ulps, and — its general form — any segment and query for which the exact foot lies on the segment while the foot computed in doubles "
+            "with the code's own operations misses the inclusion box by <= 64 ulps: is_inclusion_fp). The class vertical-segment is recognised from the CASE, not from one failure pattern: the query is projected on a "
             "polyline with a KEPT EXACTLY VERTICAL segment (x1 == x2: b == 0, where projection_droite's special case is wrong and pinned by the test suite) and "
             "the failing answer (d, p, i) is explained by proj_segment answering anything at all on those segments, everything else being right: i is such a "
             "segment, or i is not and the answer is right once they are left out of the minimum (p on segment i, d = |q - p|, d minimal over the other "
@@ -1203,7 +1248,7 @@ class P(Prop):
         segs = segments(X, Y)
         live = [j for j, s in enumerate(segs) if not (abs(float(X[j]) - float(X[j + 1])) + abs(float(Y[j]) - float(Y[j + 1])) < 1e-16)]
         vert = [j for j in live if is_vertical(segs[j])]
-        hfp = [j for j in live if is_horizontal_fp(X, Y, j) or is_near_horizontal_fp(X, Y, j)]
+        hfp = [j for j in live if is_horizontal_fp(X, Y, j) or is_near_horizontal_fp(X, Y, j) or is_inclusion_fp(X, Y, j, q)]
         if row is None:
             return None
         d, xp, yp, i = row
